@@ -147,7 +147,7 @@ DEFS = ["[foo]: /url-{i} 'T{i}'\n", "[^n]: note {i}\n", "*[HTML]: Hyper {i}\n", 
         "> > > > > > > deep quote {i}\n", "- - - - - - - deep list {i}\n", "> - > - > - > - mixed {i}\n", "1. 1. 1. 1. 1. 1. 1. deep ordered {i}\n",
         ">! >! >! >! >! >! >! spoiler {i}\n", "> > > > > > > [foo]: /deep{i}\n", "```{note} T\n```{note} U\n```{note} V\ninner {i}\n```\n```\n```\n",
         "*a **b *c **d *e {i}* f** g* h** i*\n", "[a [b [c [d {i}](u)](v)](w)](x)\n"]
-USES = ["> outer\n>\n> > inner quote\n", "- a\n  - b\n    - c\n", "Setext use\n=====\n\nSecond\n-----\n", "> - x\n>   > y\n",
+USES = ["<b>raw</b> [j](javascript:x) see https://e.f/x now\n", "a | b\n--|--\n: def\n", "> outer\n>\n> > inner quote\n", "- a\n  - b\n    - c\n", "Setext use\n=====\n\nSecond\n-----\n", "> - x\n>   > y\n",
         "see [foo] and [foo][] and [x][foo]\n", "ref[^n] again[^n]\n", "The HTML spec\n", "# Another\n\n## Sub\n", "![other](/o.png) ![b](/p.png)\n",
         "plain paragraph\n", "> [foo]\n", "[^n]\n\n[FOO]\n", "- [foo]\n- ![a](/z)\n", "text with HTML and [foo]\n"]
 
@@ -220,10 +220,17 @@ def history_oracle(ctx, hs):
                         break
             # mistune.markdown(): cached converters keyed by arguments
             for i, d in enumerate(h):
-                for kw in ({}, {"escape": False}, {"renderer": "ast"}, {"plugins": ("table", "footnotes")}):
+                for kw in ({}, {"escape": False}, {"renderer": "ast"}, {"plugins": ("table", "footnotes")}, {"plugins": ("footnotes", "table")}, {"plugins": ("speedup", "url")}, {"plugins": ("url", "speedup")},
+                           {"plugins": ("table", "def_list")}, {"plugins": ("def_list", "table")}, {"renderer_obj": {"escape": False}}, {"renderer_obj": {"escape": True}},
+                           {"renderer_obj": {"escape": True, "allow_harmful_protocols": True}}):
                     n += 1
                     try:
-                        got = mistune.markdown(d, **kw)
+                        if "renderer_obj" in kw:
+                            # a renderer OBJECT, built anew for every call (equal classes, different settings)
+                            from mistune.renderers.html import HTMLRenderer
+                            got = mistune.markdown(d, renderer=HTMLRenderer(**kw["renderer_obj"]))
+                        else:
+                            got = mistune.markdown(d, **kw)
                     except RecursionError:
                         got = ["EXC", "RecursionError"]
                     except Exception as e:
@@ -235,6 +242,49 @@ def history_oracle(ctx, hs):
                                  {"kind": "markdown()", "history": h[:i + 1], "kw": repr(kw)})
     finally:
         pr.close()
+    return n
+
+
+def include_history(ctx):
+    """Markdown.read() on pages that include the same files, on one reused converter vs a fresh converter per page"""
+    import mistune, tempfile, shutil, os
+    from mistune.directives import FencedDirective, RSTDirective, Include, TableOfContents, Admonition
+    n = 0
+    tmp = tempfile.mkdtemp(prefix="verif-c08-")
+    try:
+        def w(name, text):
+            with open(os.path.join(tmp, name), "w", encoding="utf-8") as f:
+                f.write(text)
+        for style in ("rst", "fenced"):
+            inc = (lambda f: ".. include:: %s\n\n" % f) if style == "rst" else (lambda f: "```{include} %s\n```\n\n" % f)
+            toc = ".. toc::\n\n" if style == "rst" else "```{toc}\n```\n\n"
+            w("shared.md", "## Shared notice\n\nsee [the guide][g] and ![logo][logo] and [^n]\n\n### Details\n\ntext *x*\n")
+            w("footer.md", "---\n\nfooter [g]\n")
+            pages = {
+                "a.md": "# Page A\n\n" + inc("shared.md") + "[g]: /a/guide\n[logo]: /a/logo.png\n\n[^n]: note A\n\n" + inc("footer.md"),
+                "b.md": toc + "# Page B\n\n" + inc("shared.md") + "middle\n\n" + inc("shared.md") + "[g]: /b/guide 'B'\n[logo]: /b/logo.png\n\n[^n]: note B\n\n" + inc("footer.md"),
+                "c.md": "# Page C\n\n" + inc("footer.md") + inc("shared.md"),
+            }
+            for k, v in pages.items():
+                w(k, v)
+            D = RSTDirective if style == "rst" else FencedDirective
+            mk = lambda: mistune.create_markdown(plugins=["footnotes", "table", D([Include(), TableOfContents(), Admonition()])])
+            used = mk()
+            for order in (["a.md", "b.md", "c.md", "a.md"], ["c.md", "b.md", "a.md", "b.md"]):
+                for pg in order:
+                    n += 1
+                    def run(md):
+                        try:
+                            return md.read(os.path.join(tmp, pg))[0]
+                        except Exception as e:
+                            return "EXC " + type(e).__name__ + ": " + str(e)[:80]
+                    got, exp = run(used), run(mk())
+                    if got != exp:
+                        ctx.fail("history:include", "Markdown.read(%s) on a converter that read other pages before differs from a fresh converter (%s include syntax)" % (pg, style),
+                                 {"kind": "include", "style": style, "page": pg, "order": order, "pages": pages, "got": got[:500], "fresh": exp[:500]})
+                        break
+    finally:
+        shutil.rmtree(tmp, ignore_errors=True)
     return n
 
 
@@ -303,6 +353,7 @@ def run(ctx):
     hs = histories(ctx, 150 if q else 2000)
     nh = history_oracle(ctx, hs)
     nt = thread_oracle(ctx, docs, 2 if q else 12)
+    nh += include_history(ctx)
     if ctx.broken and not ctx.failures:
         ctx.notes.append("search mode entered")
         nh += history_oracle(ctx, histories(ctx, 3000))
